@@ -103,4 +103,10 @@ VARIANTS = [
          old="        self.max_size = max(self.max_size, self.contracted_size)", new="        self.max_size = max(self.max_size, self.total_size)", expect=("C20-LEDGER", "update_post_step")),
     dict(name="twin: tracker writes flops update as an assignment", kind="twin", file=SC,
          old="        self.flops += self.flops_change", new="        self.flops = self.flops + self.flops_change"),
+    dict(name="seed C20_10: start-region merges not pre-reversed", kind="break", file="cotengra/pathfinders/path_compressed_greedy.py",
+         old="                o_nodes.append(o_nodes[pj])\n            seq.reverse()\n", new="                o_nodes.append(o_nodes[pj])\n",
+         expect=("C20-SPANORDER", "execution")),
+    dict(name="span order replayed without the final reversal", kind="break", file="cotengra/pathfinders/path_compressed_greedy.py",
+         old="            seq.append((i_surface, merges[i_surface]))\n        seq.reverse()\n", new="            seq.append((i_surface, merges[i_surface]))\n",
+         expect=("C20-SPANORDER", "span")),
 ]
